@@ -130,7 +130,10 @@ type Spec struct {
 	// named types are declared without features, all fields / arguments / list and non-null wrappers are
 	// built, and the RequiredFeatures are assigned last; 2 = the definition is built without type
 	// features, cloned (SchemaDefinition.Clone, what apifu hands its PreprocessGraphQLSchemaDefinition
-	// hook), and the features are assigned on the clone.
+	// hook), and the features are assigned on the clone; 3 and 4 = the objects go through schema.New once
+	// before they are complete and are completed in place, so that the build that counts is a second build
+	// of the same objects after an edit (3: type features assigned after the first build; 4: fields,
+	// arguments, union members, implemented interfaces, directive arguments added after the first build).
 	Staged int `json:"staged,omitempty"`
 }
 
